@@ -159,7 +159,7 @@ func c04Scenarios(thorough bool) []schedItem {
 		switch g {
 		case "G13":
 			opt = "referrers"
-		case "G14":
+		case "G14", "G21":
 			opt = "digest-tags"
 		}
 		for _, p := range []string{"two-reg", "same-reg-refuse", "same-reg-grant", "reg-dir", "dir-reg", "dir-dir", "same-repo"} {
